@@ -187,7 +187,7 @@ def _carquet_fn(stack_text):
     """innermost frame whose source path lies in the repository's src/ tree"""
     for m in re.finditer(r'#\d+ 0x[0-9a-f]+ in (\S+) (\S+)', stack_text):
         fn, loc = m.group(1), m.group(2)
-        if '/src/' in loc and '/drivers/' not in loc:
+        if (REPO + '/src/') in loc:
             return fn
     m = re.search(r'#\d+ 0x[0-9a-f]+ in (\S+)', stack_text)
     return 'HARNESS/' + (m.group(1) if m else 'unknown')
